@@ -34,6 +34,10 @@ be cancelled" is a universally quantified variable of the theorems:
   it yields a Canceled error unless an earlier error exists.  (Whether a Put
   following a failed Put is still issued is a genuine race in the Go code; the
   theorems hold for every choice.)
+* `FlushOracle.winner` : which of the errors of one errgroup `group.Wait()`
+  reports.  errgroup keeps the error of the goroutine that reaches its
+  `sync.Once` first, which need not be the Put that failed first; the model
+  accepts any error that occurred in the group (`chooseErr`).
 * `ExecOracle.ac`, `.hist` : result of the Action Cache Put and of the Put of
   the historical execute response.
 `FindMissing` itself is truthful: a blob is reported missing iff it is not in
@@ -75,10 +79,21 @@ def Store.init (batchSize : Nat) (cas : List Digest) : Store :=
 structure FlushOracle where
   fm : Option Code
   puts : List (Digest × Option Code)
+  winner : Option Code := none
 deriving Repr, DecidableEq
 
 /-- The oracle of a flush in which nothing fails and nothing needs uploading. -/
-def FlushOracle.ok : FlushOracle := ⟨none, []⟩
+def FlushOracle.ok : FlushOracle := ⟨none, [], none⟩
+
+/-- `group.Wait()`: nil if no goroutine failed, otherwise one of the errors
+(the oracle's choice if it is one of them, else the first). -/
+def chooseErr (errs : List Code) (winner : Option Code) : Option Code :=
+  match errs with
+  | [] => none
+  | e :: _ =>
+    match winner with
+    | some c => if c ∈ errs then some c else some e
+    | none => some e
 
 /-- `pendingPutOperations[key]` lookup followed by `delete(pendingPutOperations, key)`. -/
 def takeOp (d : Digest) : List (Digest × Buf) → Option (Buf × List (Digest × Buf))
@@ -94,22 +109,25 @@ structure Group where
   pend : List (Digest × Buf)
   cas : List Digest
   consumed : List Buf
-  err : Option Code
+  errs : List Code
 deriving Repr, DecidableEq
 
-/-- The upload loop of `flushLocked`: for every issued Put of a blob that
-FindMissing reported missing (`d ∉ cas0`) and that is still pending: delete it
-from the map, hand its buffer to the underlying Put, record the first error. -/
-def issuePuts (cas0 : List Digest) (g : Group) : List (Digest × Option Code) → Group
-  | [] => g
-  | (d, r) :: rest =>
-    if d ∈ cas0 then issuePuts cas0 g rest
-    else match takeOp d g.pend with
-      | none => issuePuts cas0 g rest
-      | some (b, pend') =>
-        match r with
-        | none => issuePuts cas0 { pend := pend', cas := d :: g.cas, consumed := b :: g.consumed, err := g.err } rest
-        | some c => issuePuts cas0 { pend := pend', cas := g.cas, consumed := b :: g.consumed, err := firstErr g.err (some c) } rest
+/-- One iteration of the upload loop of `flushLocked` for an issued Put `e`
+of a blob that FindMissing reported missing (`e.1 ∉ cas0`) and that is still
+pending: delete it from the map, hand its buffer to the underlying Put, record
+its error. -/
+def issueOne (cas0 : List Digest) (g : Group) (e : Digest × Option Code) : Group :=
+  if e.1 ∈ cas0 then g
+  else match takeOp e.1 g.pend with
+    | none => g
+    | some (b, pend') =>
+      match e.2 with
+      | none => { pend := pend', cas := e.1 :: g.cas, consumed := b :: g.consumed, errs := g.errs }
+      | some c => { pend := pend', cas := g.cas, consumed := b :: g.consumed, errs := g.errs ++ [c] }
+
+/-- The upload loop (errgroup) of `flushLocked`. -/
+def issuePuts (cas0 : List Digest) (g : Group) (t : List (Digest × Option Code)) : Group :=
+  t.foldl (issueOne cas0) g
 
 /-- `flushLocked`. -/
 def flushLocked (s : Store) (o : FlushOracle) : Store :=
@@ -119,22 +137,27 @@ def flushLocked (s : Store) (o : FlushOracle) : Store :=
     { s with pending := [], consumed := s.pending.map (·.2) ++ s.consumed,
              flushError := some c, errorsRecorded := s.errorsRecorded + 1 }
   | none =>
-    let g := issuePuts s.cas ⟨s.pending, s.cas, s.consumed, none⟩ o.puts
+    let g := issuePuts s.cas ⟨s.pending, s.cas, s.consumed, []⟩ o.puts
     -- a missing blob that was never issued: AcquireSemaphore failed
-    let err := if g.pend.any (fun p => decide (p.1 ∉ s.cas)) then firstErr g.err (some canceled) else g.err
-    match err with
+    let errs := if g.pend.any (fun p => decide (p.1 ∉ s.cas)) then g.errs ++ [canceled] else g.errs
+    match chooseErr errs o.winner with
     | some c =>
       { s with pending := [], cas := g.cas, consumed := g.pend.map (·.2) ++ g.consumed,
                flushError := some c, errorsRecorded := s.errorsRecorded + 1 }
     | none =>
       { s with pending := [], cas := g.cas, consumed := g.pend.map (·.2) ++ g.consumed }
 
+/-- "Flush the existing blobs if there are too many pending" (in `Put`). -/
+def maybeFlush (s : Store) (o : FlushOracle) : Store :=
+  if s.pending.length ≥ s.batchSize then flushLocked s o else s
+
 /-- `(*batchedStoreBlobAccess).Put`. -/
 def put (s : Store) (d : Digest) (b : Buf) (o : FlushOracle) : Store × Option Code :=
   if s.pending.any (fun p => p.1 == d) then
+    -- discard duplicate writes
     ({ s with consumed := b :: s.consumed }, none)
   else
-    let s1 := if s.pending.length ≥ s.batchSize then flushLocked s o else s
+    let s1 := maybeFlush s o
     match s1.flushError with
     | some c => ({ s1 with consumed := b :: s1.consumed }, some c)
     | none => ({ s1 with pending := s1.pending ++ [(d, b)] }, none)
@@ -159,6 +182,28 @@ def runPuts (s : Store) : List PutCall → Store × List (Digest × Option Code)
     let r := put s c.digest c.buf c.oracle
     let rs := runPuts r.1 cs
     (rs.1, (c.digest, r.2) :: rs.2)
+
+/-- Arbitrary histories on one batched store: Puts and flusher calls in any
+order.  The second component is the ghost list of digests whose `Put` returned
+nil since the last flusher call; the third the buffers handed in so far. -/
+inductive StoreOp where
+  | put (c : PutCall)
+  | flush (o : FlushOracle)
+deriving Repr, DecidableEq
+
+structure Hist where
+  store : Store
+  acked : List Digest
+  handed : List Buf
+deriving Repr, DecidableEq
+
+def stepOp (h : Hist) : StoreOp → Hist
+  | .put c =>
+    let r := put h.store c.digest c.buf c.oracle
+    ⟨r.1, if r.2 = none then c.digest :: h.acked else h.acked, c.buf :: h.handed⟩
+  | .flush o => ⟨(flusher h.store o).1, [], h.handed⟩
+
+def runOps (h : Hist) (ops : List StoreOp) : Hist := ops.foldl stepOp h
 
 /-- The parts of `ExecuteResponse` the property talks about.  `dirs` holds
 tree and root-directory digests of all output directories (flattened);
